@@ -4,6 +4,7 @@ package vrt
 
 import (
 	"runtime"
+	gotime "time"
 	"unsafe"
 )
 
@@ -14,7 +15,8 @@ type Timer struct {
 	period int64
 	active bool
 	fire   func(t *Timer)
-	clk    vclock // creator's clock (race monitor: timer creation -> fire)
+	nat    *gotime.Timer // native mode
+	clk    vclock        // creator's clock (race monitor: timer creation -> fire)
 	h      uint64
 }
 
@@ -30,6 +32,22 @@ func Now() int64 {
 // NewTimer arms a timer d ns from now.  period>0 re-arms it after each firing.
 func NewTimer(d, period int64, fire func(t *Timer)) *Timer {
 	w := W
+	if w == nil { // native mode (see sync.go): a real timer on the wall clock
+		t := &Timer{period: period, active: true, fire: fire}
+		var arm func(dd int64)
+		arm = func(dd int64) {
+			t.nat = gotime.AfterFunc(gotime.Duration(dd), func() {
+				if period > 0 {
+					arm(period)
+				} else {
+					t.active = false
+				}
+				fire(t)
+			})
+		}
+		arm(d)
+		return t
+	}
 	w.checkDead()
 	if d < 0 {
 		d = 0
@@ -50,7 +68,16 @@ func NewTimer(d, period int64, fire func(t *Timer)) *Timer {
 // Stop disarms the timer; it reports whether the timer was active.
 func (t *Timer) Stop() bool {
 	w := W
-	if w == nil || w.dead {
+	if w == nil {
+		if t.nat != nil {
+			was := t.active
+			t.active = false
+			t.nat.Stop()
+			return was
+		}
+		return false
+	}
+	if w.dead {
 		return false
 	}
 	was := t.active
@@ -73,7 +100,14 @@ func (t *Timer) Stop() bool {
 func (t *Timer) Reset(d int64) bool {
 	was := t.Stop()
 	w := W
-	if w == nil || w.dead {
+	if w == nil {
+		if t.nat != nil {
+			t.active = true
+			t.nat.Reset(gotime.Duration(d))
+		}
+		return was
+	}
+	if w.dead {
 		return was
 	}
 	if d < 0 {
@@ -141,6 +175,13 @@ func (w *World) fireNext() {
 // Must be called from a timer action.
 func TimerSend[T any](t *Timer, ch chan T, v T) {
 	w := W
+	if w == nil {
+		select {
+		case ch <- v:
+		default:
+		}
+		return
+	}
 	c := w.chanOf(chanKey(ch), cap(ch))
 	ver := w.objVer(c.key)
 	if len(c.buf) < c.cap {
@@ -157,6 +198,11 @@ func TimerSend[T any](t *Timer, ch chan T, v T) {
 // TimerClose closes ch on behalf of timer t.
 func TimerClose[T any](t *Timer, ch chan T) {
 	w := W
+	if w == nil {
+		defer func() { recover() }()
+		close(ch)
+		return
+	}
 	c := w.chanOf(chanKey(ch), cap(ch))
 	if c.closed {
 		return
@@ -172,6 +218,9 @@ func TimerClose[T any](t *Timer, ch chan T) {
 // TimerTouch folds a timer-driven state change of object p into its version.
 func TimerTouch(t *Timer, p unsafe.Pointer) {
 	w := W
+	if w == nil {
+		return
+	}
 	ver := w.objVer(p)
 	*ver = mix(*ver, 0x36, t.h, uint64(w.now))
 }
@@ -179,6 +228,10 @@ func TimerTouch(t *Timer, p unsafe.Pointer) {
 // TimerGo starts a task from a timer action (time.AfterFunc).
 func TimerGo(t *Timer, name string, f func()) {
 	w := W
+	if w == nil {
+		go f()
+		return
+	}
 	nt := w.newTask(name)
 	nt.h = mix(nt.h, t.h, 0x37)
 	if w.race != nil {
@@ -201,6 +254,10 @@ func TimerGo(t *Timer, name string, f func()) {
 // Sleep blocks the running task for d virtual ns.
 func Sleep(d int64) {
 	w := W
+	if w == nil {
+		gotime.Sleep(gotime.Duration(d))
+		return
+	}
 	w.checkDead()
 	fired := false
 	NewTimer(d, 0, func(t *Timer) { fired = true })
